@@ -12,6 +12,12 @@ target-role incidences: all re-insertions, then all removals) is `C19.removeNode
 The side condition "no node on both sides" is necessary: `add_edge` accepts `((1,2),(1,3))`; `remove_node(1)` then lists
 that hyperedge twice (once per role), re-inserts `((2),(3))` twice and raises on the second `remove_edge` - as
 `C02.Spec.removeNode` does (witness `overlap02_rejected` below) - while C19's content model lists it once and accepts.
+
+Second side condition, for `keep_edges=True` only (`NoNone`): no stored hyperedge metadata is the bare value `None`
+(`C02.metaNone`).  `remove_node(keep_edges=True)` re-inserts a shrunk hyperedge with `add_edge(.., metadata=md)`, and a
+metadata ARGUMENT `None` means "not given" (`C02.argMeta`): the re-inserted hyperedge gets `{}`, which the content model
+of C19 (it re-adds the stored metadata as it is) does not express (witness `noneMeta02_differs`).  `NoNone` is kept by
+`remove_node` / `remove_edge`, so it threads through the filter.
 Core Lean only. -/
 namespace C19
 open AL
@@ -121,8 +127,80 @@ theorem removeEdge02 (a : C02.Spec) (k : Key) (hk : SortedL k.1 ∧ SortedL k.2)
   unfold C02.Spec.removeEdge
   simp only [C02.RawEdge.ofKey, C02.canonStrict, C02.Side.strict, sortNodes02 hk.1, sortNodes02 hk.2]
 
-/-- the re-insertion of one incident hyperedge -/
-theorem reinsert02 (n : Node) (a : C02.Spec) (k : Key) (h : Dyn02 (ofSpec02 a))
+/-! ### the side condition of `keep_edges=True`: no stored hyperedge metadata is the bare value `None` -/
+
+/-- no stored hyperedge metadata is the bare value `None` (then `remove_node(keep_edges=True)` would reset it to `{}`) -/
+def NoNone (c : Content Key Int) : Prop := ∀ e ∈ c.edges, e.2.2 ≠ mdOf C02.metaNone
+
+theorem argMeta_of_ne {md : C02.Meta} (h : mdOf md ≠ mdOf C02.metaNone) : C02.argMeta md = md := by
+  unfold C02.argMeta
+  rw [if_neg]
+  intro hb
+  exact h (by rw [eq_of_beq hb])
+
+theorem mem_set02 {α β : Type} [DecidableEq α] (l : List (α × β)) (k : α) (v : β) (e : α × β)
+    (h : e ∈ AL.set l k v) : e = (k, v) ∨ e ∈ l := by
+  induction l with
+  | nil => simp [AL.set] at h; exact .inl h
+  | cons hd t ih => grind [AL.set]
+
+theorem noNone_addEdge (c : Content Key Int) (k : Key) (w : Int) (md : Md) (h : NoNone c)
+    (hmd : md ≠ mdOf C02.metaNone) : NoNone (addEdge opsD c k w md) := by
+  intro e he
+  unfold addEdge at he
+  split at he
+  · simp only [addEdgeOld] at he
+    rcases mem_set02 _ _ _ _ he with rfl | h1
+    · exact hmd
+    · exact h e h1
+  · simp only [addEdgeNew, List.mem_append, List.mem_singleton] at he
+    rcases he with h1 | rfl
+    · exact h e h1
+    · exact hmd
+
+theorem noNone_shrinkAdd (n : Node) (c : Content Key Int) (e : Key × (Int × Md)) (h : NoNone c)
+    (hmd : e.2.2 ≠ mdOf C02.metaNone) : NoNone (shrinkAdd opsD n c e) := by
+  unfold shrinkAdd
+  split
+  · exact h
+  · exact noNone_addEdge c _ _ _ h hmd
+
+/-- the re-insertion re-adds the metadata of an existing record -/
+theorem noNone_shrinkAddK (n : Node) (c : Content Key Int) (k : Key) (h : NoNone c) : NoNone (shrinkAddK opsD n c k) := by
+  unfold shrinkAddK
+  split
+  · exact h
+  · rename_i v hv
+    exact noNone_shrinkAdd n c (k, v) h (h (k, v) (al_mem_of_get? hv))
+
+theorem noNone_removeEdge (c : Content Key Int) (k : Key) (h : NoNone c) : NoNone (removeEdge c k) :=
+  fun e he => h e (AL.mem_erase_of _ _ _ he)
+
+theorem noNone_foldl_shrinkAdd (n : Node) (l : List (Key × (Int × Md))) (c : Content Key Int) (h : NoNone c)
+    (hl : ∀ e ∈ l, e.2.2 ≠ mdOf C02.metaNone) : NoNone (l.foldl (shrinkAdd opsD n) c) := by
+  induction l generalizing c with
+  | nil => exact h
+  | cons e l ih =>
+    exact ih _ (noNone_shrinkAdd n c e h (hl e List.mem_cons_self)) (fun x hx => hl x (List.mem_cons_of_mem _ hx))
+
+theorem noNone_foldl_removeEdge (l : List (Key × (Int × Md))) (c : Content Key Int) (h : NoNone c) :
+    NoNone (l.foldl (fun c e => removeEdge c e.1) c) := by
+  induction l generalizing c with
+  | nil => exact h
+  | cons e l ih => exact ih _ (noNone_removeEdge c e.1 h)
+
+/-- `remove_node` (either mode) keeps the side condition -/
+theorem noNone_removeNode (keep : Bool) (c : Content Key Int) (n : Node) (h : NoNone c) :
+    NoNone (removeNode opsD keep c n) := by
+  have hinc : ∀ e ∈ incident opsD c n, e.2.2 ≠ mdOf C02.metaNone :=
+    fun e he => h e ((mem_incident opsD c n e).mp he).1
+  have h1 := noNone_foldl_shrinkAdd n (incident opsD c n) c h hinc
+  cases keep with
+  | false => exact noNone_foldl_removeEdge (incident opsD c n) _ h
+  | true => exact noNone_foldl_removeEdge (incident opsD c n) _ h1
+
+/-- the re-insertion of one incident hyperedge (its stored metadata is not the bare value `None`) -/
+theorem reinsert02 (n : Node) (a : C02.Spec) (k : Key) (h : Dyn02 (ofSpec02 a)) (hnn : NoNone (ofSpec02 a))
     (hp : (get? (ofSpec02 a).edges k).isSome = true) :
     (C02.Spec.reinsert a n k).2 = .ok ∧ ofSpec02 (C02.Spec.reinsert a n k).1 = shrinkAddK opsD n (ofSpec02 a) k := by
   rw [edges02_get, Option.isSome_map] at hp
@@ -155,7 +233,7 @@ theorem reinsert02 (n : Node) (a : C02.Spec) (k : Key) (h : Dyn02 (ofSpec02 a))
     have hk' : C02.canonAdd (C02.RawEdge.ofKey (without k.1 n, without k.2 n)) = (without k.1 n, without k.2 n) := by
       simp only [C02.canonAdd, C02.RawEdge.ofKey, C02.Side.toList, sortNodes02 (sortedL_without hcan.1 n),
         sortNodes02 (sortedL_without hcan.2.1 n)]
-    rw [hk']
+    rw [hk', argMeta_of_ne (hnn _ hmem)]
     exact addEdgeKey02 a _ w0 md0 hw
 
 /-- a verdict-threaded recursion of the spec (`reinsertAll`, `removeKeys`: `seq`, given by its two equations) is the
@@ -227,8 +305,10 @@ theorem incident02 (a : C02.Spec) (n : Node) (hcan : ∀ e ∈ (ofSpec02 a).edge
       have hn2 : n ∉ p.1.2 := (hmemk p hp).2.2 n hn1
       simp [hn2]
 
-/-- `remove_node(node, keep_edges)` of the abstract `DirectedHypergraph` is C19's `removeNode opsD` -/
-theorem removeNode02 (a : C02.Spec) (h : Dyn02 (ofSpec02 a)) (n : Node) (keep : Bool) :
+/-- `remove_node(node, keep_edges)` of the abstract `DirectedHypergraph` is C19's `removeNode opsD`; for
+`keep_edges=True`: when no stored hyperedge metadata is the bare value `None` -/
+theorem removeNode02 (a : C02.Spec) (h : Dyn02 (ofSpec02 a)) (n : Node) (keep : Bool)
+    (hnn : keep = true → NoNone (ofSpec02 a)) :
     ((get? a.nodes n).isSome = true →
       (C02.Spec.removeNode a n keep).2 = .ok ∧
       ofSpec02 (C02.Spec.removeNode a n keep).1 = removeNode opsD keep (ofSpec02 a) n) ∧
@@ -253,13 +333,14 @@ theorem removeNode02 (a : C02.Spec) (h : Dyn02 (ofSpec02 a)) (n : Node) (keep : 
     | false => exact ⟨a, rfl, rfl, h⟩
     | true =>
       obtain ⟨a1, e1, e2, e3⟩ := seq02 (fun s k => C02.Spec.reinsert s n k) (fun s ks => C02.Spec.reinsertAll s n ks)
-        (fun _ => rfl) (fun _ _ _ => rfl) (fun c k => shrinkAddK opsD n c k) Dyn02
+        (fun _ => rfl) (fun _ _ _ => rfl) (fun c k => shrinkAddK opsD n c k) (fun c => Dyn02 c ∧ NoNone c)
         (fun c k => (get? c.edges k).isSome = true ∧ n ∈ opsD.nodesOf k)
-        (fun a' k hi hp => reinsert02 n a' k hi hp.1)
-        (fun c k hi _ => shrinkAddK_dyn opsD lawful_D C02.one CanonD canonShrink_D n c k hi)
+        (fun a' k hi hp => reinsert02 n a' k hi.1 hi.2 hp.1)
+        (fun c k hi _ => ⟨shrinkAddK_dyn opsD lawful_D C02.one CanonD canonShrink_D n c k hi.1,
+          noNone_shrinkAddK n c k hi.2⟩)
         (fun c k k' _ _ _ hp' => ⟨by rw [shrinkAddK_get?_in opsD lawful_D n c k k' hp'.2]; exact hp'.1, hp'.2⟩)
-        _ a hesnd h hes
-      refine ⟨a1, e1, ?_, e3⟩
+        _ a hesnd ⟨h, hnn rfl⟩ hes
+      refine ⟨a1, e1, ?_, e3.1⟩
       rw [e2, ← hkeys]
       exact foldl_shrinkAddK opsD lawful_D n _ _ hinc_n hrec
   obtain ⟨a1, p1, p2, p3⟩ := hphase1
@@ -369,13 +450,14 @@ def rmEdge02 (s : C02.Store) (k : Key) : C02.Store × Bool :=
 theorem inv02_applyOp (s : C02.Store) (op : C02.Op) (ho : op.WF) (h : Inv02 s) : Inv02 (C02.applyOp s op).1 :=
   ⟨C02.applyOp_inv s op ho h.1, C02.applyOp_ord s op ho h.1 h.2.1, C02.applyOp_unw s op h.1 h.2.1 h.2.2⟩
 
-theorem rmNode02_link (keep : Bool) (s : C02.Store) (n : Node) (h : Inv02 s) :
+theorem rmNode02_link (keep : Bool) (s : C02.Store) (n : Node) (h : Inv02 s)
+    (hnn : keep = true → NoNone (view02 s)) :
     ((rmNode02 keep s n).2 = true ↔ (removeNode? opsD keep (view02 s) n).isSome) ∧
     ((rmNode02 keep s n).2 = true → Inv02 (rmNode02 keep s n).1 ∧
       view02 (rmNode02 keep s n).1 = removeNode opsD keep (view02 s) n) := by
   obtain ⟨s1, s2⟩ := C02.abs_applyOp s (.removeNode n keep) trivial h.1 h.2.1
   have s3 := inv02_applyOp s (.removeNode n keep) trivial h
-  obtain ⟨l1, l2⟩ := removeNode02 (C02.abs s) (dyn02_of_inv s h) n keep
+  obtain ⟨l1, l2⟩ := removeNode02 (C02.abs s) (dyn02_of_inv s h) n keep hnn
   have hpres : (get? (view02 s).nodes n).isSome = (get? (C02.abs s).nodes n).isSome := by
     simp only [view02, nodes02_get, Option.isSome_map]
   simp only [rmNode02, view02, removeNode?, decide_eq_true_eq]
@@ -408,12 +490,42 @@ theorem rmEdge02_link (s : C02.Store) (k : Key) (h : Inv02 s) (hk : CanonD k) :
     rw [l2 hp']
     simp [hp']
 
-/-- **`filter_hypergraph` on a `DirectedHypergraph` object** (same statement as `filter01`). -/
-theorem filter02 (s : C02.Store) (h : Inv02 s) (nc ec : Option Crit) (mode : Mode) (keep : Bool) :
+/-- the corner the side condition `NoNone` excludes: `set_edge_metadata(((1,2),(3)), None)` stores the bare value `None`;
+`remove_node(2, keep_edges=True)` then re-inserts `((1),(3))` with `add_edge(.., metadata=None)`, i.e. with `{}` (the
+object, as the code), whereas the content model of C19 carries the stored value over.  With `keep_edges=False` (no
+re-insertion) the two agree on that state. -/
+theorem noneMeta02_differs :
+    let s := C02.run {} [.addEdge (.ofLists [1, 2] [3]) none none, .setEdgeMeta (.ofLists [1, 2] [3]) C02.metaNone]
+    (view02 s).edges = [(([1, 2], [3]), (C02.one, mdOf C02.metaNone))] ∧ ¬ NoNone (view02 s) ∧
+    (rmNode02 true s 2).2 = true ∧
+    (view02 (rmNode02 true s 2).1).edges = [(([1], [3]), (C02.one, []))] ∧
+    (removeNode opsD true (view02 s) 2).edges = [(([1], [3]), (C02.one, mdOf C02.metaNone))] ∧
+    (view02 (rmNode02 false s 2).1).edges = (removeNode opsD false (view02 s) 2).edges := by
+  refine ⟨by decide, ?_, by decide, by decide, by decide, by decide⟩
+  intro h
+  exact h (([1, 2], [3]), (C02.one, mdOf C02.metaNone)) (by decide) rfl
+
+/-- **`filter_hypergraph` on a `DirectedHypergraph` object** (same statement as `filter01`; for `keep_edges=True` under
+the side condition that no stored hyperedge metadata is the bare value `None`, which also holds afterwards). -/
+theorem filter02 (s : C02.Store) (h : Inv02 s) (nc ec : Option Crit) (mode : Mode) (keep : Bool)
+    (hnn : keep = true → NoNone (view02 s)) :
     let r := filterVia view02 (rmNode02 keep) rmEdge02 s nc ec mode
-    r.2 = true ∧ Inv02 r.1 ∧ view02 r.1 = filterHg opsD (view02 s) nc ec mode keep :=
-  filterVia_eq opsD lawful_D keep view02 (rmNode02 keep) rmEdge02 Inv02 CanonD
-    (fun s hs => (dyn02_of_inv s hs).wf) (fun s hs => (dyn02_of_inv s hs).canon)
-    (fun s n hs => rmNode02_link keep s n hs) (fun s k hs hk => rmEdge02_link s k hs hk) s h nc ec mode
+    r.2 = true ∧ Inv02 r.1 ∧ view02 r.1 = filterHg opsD (view02 s) nc ec mode keep ∧
+      (keep = true → NoNone (view02 r.1)) := by
+  have := filterVia_eq opsD lawful_D keep view02 (rmNode02 keep) rmEdge02
+    (fun s => Inv02 s ∧ (keep = true → NoNone (view02 s))) CanonD
+    (fun s hs => (dyn02_of_inv s hs.1).wf) (fun s hs => (dyn02_of_inv s hs.1).canon)
+    (fun s n hs => by
+      obtain ⟨l1, l2⟩ := rmNode02_link keep s n hs.1 hs.2
+      refine ⟨l1, fun hacc => ⟨⟨(l2 hacc).1, fun hk => ?_⟩, (l2 hacc).2⟩⟩
+      rw [(l2 hacc).2]
+      exact noNone_removeNode keep _ n (hs.2 hk))
+    (fun s k hs hk => by
+      obtain ⟨l1, l2⟩ := rmEdge02_link s k hs.1 hk
+      refine ⟨l1, fun hacc => ⟨⟨(l2 hacc).1, fun hk' => ?_⟩, (l2 hacc).2⟩⟩
+      rw [(l2 hacc).2]
+      exact noNone_removeEdge _ k (hs.2 hk'))
+    s ⟨h, hnn⟩ nc ec mode
+  exact ⟨this.1, this.2.1.1, this.2.2, this.2.1.2⟩
 
 end C19
